@@ -2,7 +2,7 @@
    Networks: Model/Pipelines.v. "Partial" in DESIGN.md's sense: channel hand-off, WaitGroup,
    context cancellation and goroutine exit are primitives of the model. *)
 From FunV Require Import Base.Tac Base.ListX Model.Pipelines
-  Proofs.Pipelines_conserve Proofs.Pipelines_quiesce Proofs.Pipelines_nets.
+  Proofs.Pipelines_conserve Proofs.Pipelines_quiesce Proofs.Pipelines_nets Proofs.Pipelines_complete Proofs.Pipelines_closer.
 
 (* every step of every network permutes
    remaining input ++ items in goroutines' hands ++ channel buffers ++ delivered ++ dropped *)
@@ -18,3 +18,56 @@ Theorem C01_conservation :
     Permutation (concat (s_srcs s) ++ hands (s_procs s) ++ bufs (s_chans s) ++ s_deliv s ++ s_drop s) (concat srcs).
 Proof. exact conservation_constructs. Qed.
 Print Assumptions C01_conservation.
+
+(* C01_complete, stated for every construct: a terminated un-aborted run delivered a permutation of the input *)
+Definition C01_complete_statement : Prop :=
+  forall K srcs s,
+    reach (net_of K) (init_of K srcs) s -> s_stopped s = false -> all_done s ->
+    Permutation (s_deliv s) (concat srcs).
+
+(* what is proved of it for EVERY construct: in a terminated run the only items missing from the output are
+   those still in the input, still in a channel buffer, or explicitly dropped by a goroutine that gave up
+   (ctx.Done arm / send on a closed channel) - nothing is duplicated or invented, ever *)
+Theorem C01_complete_partial :
+  forall K srcs s,
+    reach (net_of K) (init_of K srcs) s ->
+    (forall p pr, nth_error (s_procs s) p = Some pr -> p_hand pr = None) ->
+    Permutation (s_deliv s ++ concat (s_srcs s) ++ bufs (s_chans s) ++ s_drop s) (concat srcs).
+Proof. exact complete_up_to_drops. Qed.
+Print Assumptions C01_complete_partial.
+
+(* ... and the full statement for Buffer and the other single-pump constructs (Chain, MergeSlices,
+   MergeSliceIterators, dt.Map, adt.Map): any buffer size, any input, any schedule *)
+Theorem C01_complete_single_pump :
+  forall b cap input s,
+    reach (sp_net b) (sp_init cap input) s -> s_stopped s = false -> consumer_done s ->
+    Permutation (s_deliv s) input.
+Proof. exact sp_complete. Qed.
+Print Assumptions C01_complete_single_pump.
+
+(* C01_order_single: Buffer (sp_net true = buffer_net) delivers the input LIST: what was delivered so far is
+   always a prefix of the input, nothing is dropped, and at the end it is the input *)
+Theorem C01_order_single :
+  forall cap input s,
+    reach buffer_net (buffer_init cap input) s -> s_stopped s = false ->
+    s_drop s = [] /\ (exists rest, s_deliv s ++ rest = input) /\ (consumer_done s -> s_deliv s = input).
+Proof. exact (sp_order true). Qed.
+Print Assumptions C01_order_single.
+
+(* C01_no_early_close: Map (any number of workers, any input, any schedule): the output channel is closed
+   only when the wait group is zero and every worker has returned - or the iterator's own context was
+   cancelled (Close / cancel, i.e. an aborted run: wg.Wait(ctx) returns early by design) *)
+Theorem C01_no_early_close :
+  forall n input s,
+    reach (map_net n) (map_init n input) s -> closedb s 1 = true ->
+    cancelledb (map_net n) s 1 = true \/ (s_wg s = 0 /\ forall j, j < n -> isdone s (3 + j)).
+Proof. exact map_no_early_close. Qed.
+Print Assumptions C01_no_early_close.
+
+(* the same for MergeIterators (f = identity, one source per goroutine) and GenerateParallel (f = const 0) *)
+Theorem C01_no_early_close_fanin :
+  forall n f cap srcs s,
+    reach (fanin_net n f) (fanin_init n cap srcs) s -> closedb s 0 = true ->
+    cancelledb (fanin_net n f) s 1 = true \/ (s_wg s = 0 /\ forall j, j < n -> isdone s (3 + j)).
+Proof. exact fanin_no_early_close. Qed.
+Print Assumptions C01_no_early_close_fanin.
